@@ -221,7 +221,7 @@ def main(argv=None):
             slug = re.sub(r"[^A-Za-z0-9_.-]+", "_", f"{prop}-bounded-{b['name']}")[:150]
             path = os.path.join(HERE, "replays", slug + ".json")
             with open(path, "w") as fh:
-                json.dump({"property": prop, "bounded_check": b["name"], "failing_case": b.get("witness"),
+                json.dump({"property": prop, "bounded_check": b["name"], "failing_case": b.get("witness"), "seed": seed, "tier": tier,
                            "what": b.get("what"), "how_to_replay": f"./check replay {os.path.relpath(path, HERE)}"}, fh, indent=1, default=str)
             lines.append(f"VIOLATION property={prop} replay={path}")
             lines.append(f"  bounded stand-in {b['name']}: {b.get('what')} witness={b.get('witness')}")
